@@ -346,4 +346,47 @@ theorem fft2_inverse (gy gx : Cfg ℝ ℂ) (oky : AxisOK gy) (okx : AxisOK gx) (
   rw [this, ← bwd2_sum gy gx oky okx hemu _ _ _ j.1.2 j.2.2,
     fastBackward2_fastForward2 gy gx oky okx hemu hfy hfx _ _ _ j.1.2 j.2.2, ext2_apply]
 
+/-- **C02 (`adjoint_sum`) / C01 `fast_backward_eq_sum_2d` ⇒ `EvaluatesAdjointSum`**: on any consistent
+FFT grid the model's `backward` (zero fill outside the crop, `ifftn`, cut-out, multipliers divided
+out) evaluates the adjoint sum with the output-grid weights `Δy·Δx` and the factor `(2π)^{-2}`. -/
+theorem fft2_adjoint (gy gx : Cfg ℝ ℂ) (oky : AxisOK gy) (okx : AxisOK gx) (hemu : gy.emu = gx.emu) :
+    EvaluatesAdjointSum (fftTransform2 gy gx oky okx hemu) (pupilGrid2 gy gx) (uvGrid2 gy gx) := by
+  intro G j
+  show fastBackward2 expT expE gy gx (ext2 G) j.1 j.2 = _
+  rw [bwd2_sum gy gx oky okx hemu _ _ _ j.1.2 j.2.2]
+  have hpi : ((2 * Real.pi : ℝ) : ℂ) ≠ 0 := by
+    have : (2 * Real.pi) ≠ 0 := by positivity
+    exact_mod_cast this
+  have hR : ∀ k : Fin gy.Mo × Fin gx.Mo,
+      G k * (((uvGrid2 gy gx).weights k : ℝ) : ℂ)
+        * cexp (I * ((dot ((uvGrid2 gy gx).pts k) ((pupilGrid2 gy gx).pts j) : ℝ) : ℂ))
+      = (fun ky kx => (((2 * Real.pi) ^ 2 : ℝ) : ℂ) * (ext2 G ky kx * (((gy.dT : ℝ) : ℂ) * ((gx.dT : ℝ) : ℂ)) *
+          (expT (gx.a kx * gx.x j.2 + gy.a ky * gy.x j.1) * expE (gx.s * gx.x j.2 + gy.s * gy.x j.1))))
+          k.1 k.2 := by
+    intro k
+    simp only
+    rw [ext2_apply]
+    have hk : expT (gx.a k.2 * gx.x j.2 + gy.a k.1 * gy.x j.1) * expE (gx.s * gx.x j.2 + gy.s * gy.x j.1)
+        = cexp (I * (((2 * Real.pi * gx.a k.2 + gx.s) * gx.x j.2 + (2 * Real.pi * gy.a k.1 + gy.s) * gy.x j.1 : ℝ) : ℂ)) := by
+      unfold expT expE
+      rw [← Complex.exp_add]
+      congr 1
+      push_cast
+      ring
+    rw [hk]
+    simp only [pupilGrid2, uvGrid2, dot, Fin.sum_univ_two, Matrix.cons_val_zero, Matrix.cons_val_one]
+    push_cast
+    ring
+  rw [Finset.sum_congr rfl (fun k _ => hR k),
+    sum_fin2 gy.Mo gx.Mo (fun ky kx => (((2 * Real.pi) ^ 2 : ℝ) : ℂ) * (ext2 G ky kx * (((gy.dT : ℝ) : ℂ) * ((gx.dT : ℝ) : ℂ)) *
+          (expT (gx.a kx * gx.x j.2 + gy.a ky * gy.x j.1) * expE (gx.s * gx.x j.2 + gy.s * gy.x j.1)))),
+    Finset.mul_sum]
+  apply Finset.sum_congr rfl; intro ky _
+  rw [Finset.mul_sum]
+  apply Finset.sum_congr rfl; intro kx _
+  have h2 : (((2 * Real.pi) ^ 2 : ℝ) : ℂ) ≠ 0 := by
+    have : ((2 * Real.pi) ^ 2 : ℝ) ≠ 0 := by positivity
+    exact_mod_cast this
+  field_simp
+
 end HcipyVerif.FourierLink
